@@ -410,13 +410,13 @@ impl<'ast, 'decls> ResolveIterator<'ast, 'decls>
                 let new_position = {
                     if addr.address >= bank.addr_start
                     {
-                        &addr.address.checked_sub(
+                        addr.address.checked_sub(
                                 report,
                                 ast_addr.header_span,
                                 &bank.addr_start)?
                             .maybe_into::<usize>()
                             .unwrap_or(0)
-                            * bank.addr_unit
+                            .saturating_mul(bank.addr_unit)
                     }
                     else
                     {
